@@ -36,7 +36,7 @@ func (e *Engine) knownActive(assertID, kfID string) bool {
 	return false
 }
 
-var evidenceDir string
+var evidenceDir, solverOverride string
 
 func main() {
 	verifRoot := flag.String("verif", "/verif", "verification root")
@@ -45,6 +45,7 @@ func main() {
 	only := flag.String("entry", "", "run only this entry")
 	noReplay := flag.Bool("no-native-replay", false, "do not run native replays (debug)")
 	verbose := flag.Bool("v", false, "verbose")
+	flag.StringVar(&solverOverride, "solver", "", "override the solver of the check config (z3 | z3-new | cvc5)")
 	flag.StringVar(&evidenceDir, "evidence-dir", "", "write the evidence file here instead of <verif>/evidence (used when checking a scratch tree)")
 	flag.Parse()
 	if *replay != "" {
@@ -77,6 +78,9 @@ func loadCfg(verifRoot, id string) (*CheckCfg, error) {
 	cfg := &CheckCfg{}
 	if err := json.Unmarshal(b, cfg); err != nil {
 		return nil, err
+	}
+	if solverOverride != "" {
+		cfg.Solver = solverOverride
 	}
 	if cfg.Solver == "" {
 		cfg.Solver = "z3"
